@@ -2,7 +2,7 @@
 import sys
 from pathlib import Path
 sys.path.insert(0, str(Path(__file__).resolve().parent))
-import objlib
+import objlib, vlib
 
 RULE = ("stream system judged by `kmodel sysobjects C14`: seeded histories (ROA/ASPA/BGPsec deltas, entitlement changes, "
         "key rolls, republish/renew runs, syncs) against an in-process krill in four timing regimes (default = nothing due; "
@@ -31,14 +31,69 @@ ASSUME = [
 ]
 
 
+TA_ORACLES = ("ta_mft_crl_numbers_agree", "ta_numbers_increase")
+
+
+def ta_stream(ctx):
+    """The trust anchor's own manifest and CRL (refreshed by a proxy<->signer exchange, with and without the operator's
+    manifest-number override): corpus proto-c14 through the proto harness and the Proto driver. Only the two number
+    clauses of C14 are judged here (decoded from the repository: manifest number = CRL number, never decreasing);
+    everything else in these traces is C15's."""
+    import proto_common as pc
+    found = False
+    traces = vlib.corpus_traces(ctx, "proto", corpus="proto-c14")
+    for tr in traces:
+        vf = Path(str(tr) + ".verdict")
+        if not vlib.run_model(ctx, "proto", tr, vf):
+            vlib.report_violation(ctx, "model-driver-crash", {"stream": "proto", "trace": str(tr)}, found_input=False)
+            continue
+        cases = vlib.parse_cases(tr, vf)
+        if cases is None:
+            vlib.report_violation(ctx, "model-driver-desync", {"stream": "proto", "trace": str(tr)}, found_input=False)
+            continue
+        vlib.histogram(ctx, cases)
+        ctx.traces_validated += len(cases)
+        for c in cases:
+            for idx, (t, v) in enumerate(c["ops"]):
+                hit = [o for o in TA_ORACLES if o in v]
+                if not hit:
+                    continue
+                found = True
+                vlib.report_violation(ctx, "implementation-vs-oracle", {
+                    "stream": "proto", "harness": "proto", "case": c["id"],
+                    "ops": [vlib.strip_obs(x) for x, _ in c["ops"][: idx + 1]],
+                    "verdict": "FAIL oracle " + " ".join(hit),
+                    "replay_cmd": f"./check {ctx.pid} --replay <this file>",
+                }, signature="oracle:" + ",".join(hit) + ":ta")
+                break
+    return found
+
+
 def check(ctx):
     # bodies of KeyObjectSet::requires_reissuance / ResourceClassObjects::requires_re_issuance regenerated from the
     # source; C14Src: generated definitions = model functions
-    return objlib.run(ctx, QUICK, THOROUGH, RULE, ASSUME,
+    return objlib.run(ctx, QUICK, THOROUGH, RULE, ASSUME, extra_bins=["proto"], extra_stream=ta_stream,
                       translate=[("pure_fns:C14", "PureFns.lean")], extra_modules=["KrillModel.Props.C14Src"])
 
 
 def replay(ctx, data):
+    if data.get("harness") == "proto":
+        import proto_common as pc
+        vlib.build_harness(ctx, ["proto"])
+        vlib.prove(ctx, ["KrillModel.Props.C14"])
+        pc.private_kmodel(ctx)
+        c = vlib.exec_ops(ctx, "proto", "proto", data.get("case", "replay"), data["ops"], "replay")
+        bad = False
+        for t, v in c["ops"]:
+            print(f"{vlib.strip_obs(t)}  ## {v[:300]}")
+            bad |= any(o in v for o in TA_ORACLES)
+        if bad or c.get("crash"):
+            f = ctx.work / "replay.ops"
+            f.write_text("\n".join(data["ops"]) + "\n")
+            print(f"VIOLATION property={ctx.pid} replay={f}")
+            return 1
+        ctx.cleanup()
+        return 0
     return objlib.replay(ctx, data)
 
 
